@@ -9,5 +9,6 @@ CONSTANTS
   MaxOps = 40
   EmitMode = "none"
   HistViews = TRUE
+  OrderedBegin = FALSE
 INVARIANTS TypeOK RingConsistent InOrder NoDirty PrefixRule CompleteKF AtomicKF CleanupSafe SeekConsistentKF SeekKFExact EmitWalk
 CHECK_DEADLOCK FALSE
